@@ -20,7 +20,7 @@ import (
 
 // C02: the DNS engine answer equals the reference resolution over all rules.
 
-var c02Hosts = []string{"ads.com", "sub.ads.com", "xads.com", "ads.com.evil.org", "tracker.io", "cdn.tracker.io", "example.org", "a.example.org", "localhost", "1.2.3.4", "printer", "ads.co.uk", "bce.ca", "fe.abc.de", "feed.cafe"}
+var c02Hosts = []string{"ads.com", "sub.ads.com", "xads.com", "ads.com.evil.org", "tracker.io", "cdn.tracker.io", "example.org", "a.example.org", "localhost", "1.2.3.4", "printer", "ads.co.uk", "bce.ca", "fe.abc.de", "feed.cafe", "реклама.example", "bücher.example", "счётчик.рф"}
 
 // c02Applicable classifies a spec: must the DNS engine use it?
 func c02Applicable(s *gen.Spec) ref.Tri {
@@ -137,7 +137,13 @@ func c02MakeList(c *core.Ctx) *c02List {
 			l.lines = append(l.lines, t)
 			l.hosts = append(l.hosts, c02HostLine{t, ns, !strings.Contains(ip, ":")})
 		case r == 8:
-			if strings.Contains(h, ".") && !strings.ContainsAny(h, "0123456789") || h == "localhost" || h == "printer" {
+			ascii := true
+			for i := 0; i < len(h); i++ {
+				ascii = ascii && h[i] < 0x80
+			}
+			// (a non-ASCII name is not a bare-domain host rule but a network
+			// rule pattern)
+			if ascii && (strings.Contains(h, ".") && !strings.ContainsAny(h, "0123456789") || h == "localhost" || h == "printer") {
 				l.lines = append(l.lines, h)
 				l.hosts = append(l.hosts, c02HostLine{h, []string{h}, true})
 			}
